@@ -146,6 +146,87 @@ pub fn ext_case(run: &Run, acc: &mut Acc, fname: &str, form: &str, b: &Option<Va
     }
 }
 
+/// `q` must keep exactly the children of `$.elems` whose `expect` is true, in order
+fn judge(acc: &mut Acc, q: &str, doc: &Value, expect: &[bool], class: &str, explain: &dyn Fn(usize) -> String) {
+    let dc = DocCtx::new(doc);
+    acc.evals += expect.len() as u64;
+    acc.nontrivial += expect.iter().filter(|x| **x).count() as u64;
+    let want: Vec<String> = expect.iter().enumerate().filter(|(_, e)| **e).map(|(i, _)| format!("$['elems'][{}]", i)).collect();
+    let case = || json!({"kind": "query-kept", "class": class, "query": q, "doc": doc, "want": want});
+    match imp::run_with_path(q, doc, &dc.am) {
+        ImplOut::Ok(v) => {
+            let got: Vec<String> = v.iter().map(|x| if x.0 == imp::FABRICATED { "<not a node>".to_string() } else { crate::model::normpath::normpath(dc.am.loc(x.0)) }).collect();
+            if got != want {
+                let first = (0..expect.len()).find(|i| want.contains(&format!("$['elems'][{}]", i)) != got.contains(&format!("$['elems'][{}]", i)));
+                acc.viol(format!("{} on {}: must keep {:?}, kept {:?}{}", q, doc, want, got, first.map(|i| format!(" ; first differing cell: {}", explain(i))).unwrap_or_default()), case());
+            }
+        }
+        other => acc.viol(format!("{} on {}: must evaluate (a failing test is false, not an error), got {}", q, doc, other.short()), case()),
+    }
+}
+
+pub fn replay_kept(case: &Value, _run: &Run) -> Acc {
+    let mut acc = Acc::new();
+    let q = case["query"].as_str().unwrap_or("$");
+    let doc = &case["doc"];
+    let dc = DocCtx::new(doc);
+    let want: Vec<String> = case["want"].as_array().map(|a| a.iter().filter_map(|x| x.as_str().map(String::from)).collect()).unwrap_or_default();
+    let out = imp::run_with_path(q, doc, &dc.am);
+    println!("query    : {}\ndocument : {}\nexpected : {:?}\nobserved : {:?}", q, doc, want, out);
+    match out {
+        ImplOut::Ok(v) if v.iter().map(|x| x.1.clone()).collect::<Vec<_>>() == want => {}
+        other => acc.viol(format!("{} on {}: must keep {:?}, got {}", q, doc, want, other.short()), case.clone()),
+    }
+    acc
+}
+
+/// both arguments taken from the document so that they can be one and the same node: `f(@.x, @.x)`, `f(@, @)`, and
+/// `f(@.x, $.elems[k].x)` for every k (the arguments alias exactly when the child under test is child k)
+fn aliased_part(thorough: bool) -> Acc {
+    let ls: Vec<Option<Value>> = lists(thorough).into_iter().collect();
+    let n = ls.len();
+    let doc = cell_doc(&None, &ls, false);
+    let bare: Vec<Option<Value>> = ls.iter().filter(|c| c.is_some()).cloned().collect();
+    let bare_doc = cell_doc(&None, &bare, true);
+    let fns = ["in", "nin", "any_of", "none_of", "subset_of"];
+    let mut jobs: Vec<(String, usize)> = vec![];
+    for f in fns {
+        jobs.push((f.to_string(), usize::MAX));
+        for k in 0..n {
+            jobs.push((f.to_string(), k));
+        }
+    }
+    jobs.par_iter()
+        .map(|(f, k)| {
+            let mut acc = Acc::new();
+            let say = |a: &Option<Value>, b: &Option<Value>| format!("{}({}, {})", f, a.clone().map(|v| v.to_string()).unwrap_or("<missing>".into()), b.clone().map(|v| v.to_string()).unwrap_or("<missing>".into()));
+            if *k == usize::MAX {
+                let expect: Vec<bool> = ls.iter().map(|a| oracle(f, a, a)).collect();
+                for q in [format!("$.elems[?{}(@.x,@.x)]", f), format!("$.elems[?{}(@['x'], @.x)]", f)] {
+                    judge(&mut acc, &q, &doc, &expect, "both arguments are one node", &|i| format!("{} must be {}", say(&ls[i], &ls[i]), expect[i]));
+                }
+                let neg: Vec<bool> = expect.iter().map(|e| !e).collect();
+                judge(&mut acc, &format!("$.elems[?!{}(@.x,@.x)]", f), &doc, &neg, "both arguments are one node", &|i| format!("{} must be {}", say(&ls[i], &ls[i]), expect[i]));
+                let eb: Vec<bool> = bare.iter().map(|a| oracle(f, a, a)).collect();
+                judge(&mut acc, &format!("$.elems[?{}(@,@)]", f), &bare_doc, &eb, "both arguments are one node", &|i| format!("{} must be {}", say(&bare[i], &bare[i]), eb[i]));
+                // an element of the very list it is looked up in
+                if f == "in" || f == "nin" {
+                    let first = |a: &Option<Value>| a.as_ref().and_then(|v| v.as_array()).and_then(|v| v.first().cloned());
+                    let e: Vec<bool> = ls.iter().map(|a| oracle(f, &first(a), a)).collect();
+                    judge(&mut acc, &format!("$.elems[?{}(@.x[0],@.x)]", f), &doc, &e, "first argument is an element of the second", &|i| format!("{} must be {}", say(&first(&ls[i]), &ls[i]), e[i]));
+                }
+            } else {
+                let b = &ls[*k];
+                let expect: Vec<bool> = ls.iter().map(|a| oracle(f, a, b)).collect();
+                judge(&mut acc, &format!("$.elems[?{}(@.x,$.elems[{}].x)]", f, k), &doc, &expect, "second argument is a member of one of the children under test", &|i| format!("{} must be {} (the two arguments are {})", say(&ls[i], b), expect[i], if i == *k { "the same node" } else { "different nodes" }));
+                let expect: Vec<bool> = ls.iter().map(|a| oracle(f, b, a)).collect();
+                judge(&mut acc, &format!("$.elems[?{}($.elems[{}].x,@.x)]", f, k), &doc, &expect, "first argument is a member of one of the children under test", &|i| format!("{} must be {} (the two arguments are {})", say(b, &ls[i]), expect[i], if i == *k { "the same node" } else { "different nodes" }));
+            }
+            acc
+        })
+        .reduce(Acc::new, Acc::merge)
+}
+
 pub fn run(tier: &str) -> i32 {
     let run = Run::new("C14", tier);
     let th = run.thorough();
@@ -217,10 +298,10 @@ pub fn run(tier: &str) -> i32 {
         }
         acc
     };
-    let acc = acc.merge(long_acc);
+    let acc = acc.merge(long_acc).merge(aliased_part(th));
     run.finish(
         acc,
-        "one case = one (function, first argument, second argument, argument form); all first arguments are packed into one document per second argument; oracle = set membership as the property states it (false for a missing or non-array argument); non-trivial = the test is true",
+        "one case = one (function, first argument, second argument, argument form); all first arguments are packed into one document per second argument; aliased arguments: both arguments from the document, as one node (`f(@.x,@.x)`, `f(@,@)`) and through an absolute path to a member of child k for every k; oracle = set membership as the property states it (false for a missing or non-array argument); non-trivial = the test is true",
         &["element equality is checked only between values for which serde_json structural equality and RFC 9535 `==` coincide (no 1 vs 1.0 pairs)"],
         true,
         json!({"second_arguments": ls.len(), "first_arguments_in": xs.len(), "forms": forms}),
